@@ -74,14 +74,20 @@ func (r *Report) add(rule, key, pos, verdict, reason, path string) {
 	r.obligs = append(r.obligs, Oblig{Rule: rule, Key: key, Pos: pos, Verdict: verdict, Reason: reason, Path: path})
 }
 
-func (r *Report) Discharge(rule, key, pos, reason string) { r.add(rule, key, pos, "discharged", reason, "") }
-func (r *Report) Finding(rule, key, pos, reason string)   { r.add(rule, key, pos, "finding", reason, "") }
+func (r *Report) Discharge(rule, key, pos, reason string) {
+	r.add(rule, key, pos, "discharged", reason, "")
+}
+func (r *Report) Finding(rule, key, pos, reason string) { r.add(rule, key, pos, "finding", reason, "") }
 func (r *Report) FindingPath(rule, key, pos, reason, path string) {
 	r.add(rule, key, pos, "finding", reason, path)
 }
-func (r *Report) Undecided(rule, key, pos, reason string) { r.add(rule, key, pos, "undecided", reason, "") }
-func (r *Report) Note(format string, a ...interface{})    { r.Notes = append(r.Notes, fmt.Sprintf(format, a...)) }
-func (r *Report) Assume(s string)                         { r.Assumptions = append(r.Assumptions, s) }
+func (r *Report) Undecided(rule, key, pos, reason string) {
+	r.add(rule, key, pos, "undecided", reason, "")
+}
+func (r *Report) Note(format string, a ...interface{}) {
+	r.Notes = append(r.Notes, fmt.Sprintf(format, a...))
+}
+func (r *Report) Assume(s string) { r.Assumptions = append(r.Assumptions, s) }
 
 // Fatal records a condition under which no verdict can be given (missing
 // anchor, instance count below the confirmed minimum ...): exit 2.
